@@ -1,2 +1,4 @@
 import WrglModel.Props.C17
-#print axioms Wrgl.C17_placeholder
+#print axioms Wrgl.C17_decoders_never_panic
+#print axioms Wrgl.C17_packfile_reader_safe
+#print axioms Wrgl.C17_output_bounded_by_input
